@@ -348,7 +348,23 @@ type reader struct {
 
 func protoPtr(p gortsplib.Protocol) *gortsplib.Protocol { return &p }
 
+// newReader retries when the HTTP tunnel handshake loses its race: the server answers the GET before it
+// registers the read channel, so the POST of a fast client can find nothing to pair with and is closed
+// (observed as EOF on the first request).  That is outside C01; it is counted and reported in the stats.
+var tunnelHandshakeRaces atomic.Int64
+
 func (sc *scenario) newReader(h *hop, k int, port int, transport string, rng *hx.Rand, setupAll bool) (*reader, error) {
+	for try := 0; ; try++ {
+		rd, err := sc.newReader1(h, k, port, transport, rng, setupAll)
+		if err != nil && sc.tunnel == gortsplib.TunnelHTTP && try < 4 && strings.Contains(err.Error(), "describe") {
+			tunnelHandshakeRaces.Add(1)
+			continue
+		}
+		return rd, err
+	}
+}
+
+func (sc *scenario) newReader1(h *hop, k int, port int, transport string, rng *hx.Rand, setupAll bool) (*reader, error) {
 	rd := &reader{k: k, info: &readerInfo{tcp: transport != "udp"}}
 	scheme := "rtsp"
 	if sc.tlsOn {
@@ -585,7 +601,7 @@ func (sc *scenario) runPlay() *runResult {
 		return stream.WritePacketRTP(desc.Medias[m], pkt)
 	}, sc.q)
 	close(writerDone)
-	waitDrain(hp, 1500*time.Millisecond)
+	waitDrain(hp, 3*time.Second)
 	close(stopAll)
 	wg.Wait()
 	close(errs)
@@ -609,7 +625,7 @@ func waitDrain(hp *hop, max time.Duration) {
 		hp.mu.Unlock()
 		if n == last {
 			stable++
-			if stable >= 6 {
+			if stable >= 15 {
 				return
 			}
 		} else {
@@ -767,7 +783,7 @@ func (hp *hop) oracle(sc *scenario) []failure {
 				w := wins[r][n-1]
 				in = w.stopE < 0
 			}
-			if !in {
+			if !in && !hp.noCClose {
 				add("delivery-outside-play", "reader %d got a packet (m=%d f=%d seq=%d) while not playing", r, d.m, d.f, d.seq)
 			}
 			key := rk{r, d.m, d.f}
@@ -795,7 +811,20 @@ func (hp *hop) oracle(sc *scenario) []failure {
 				if back >= 0 {
 					wr := hp.writes[lst[back]]
 					if bytes.Equal(wr.payload, d.payload) {
-						add("duplicate-or-reordered", "reader %d m=%d f=%d: packet seq=%d (write %d) delivered after write %d", r, d.m, d.f, d.seq, wr.idx, lst[lp])
+						_, dup := delivered[r][wr.idx]
+						cls := "duplicate-or-reordered"
+						// Known shape: a TCP reader, a stop (PAUSE / close) of that reader in progress, and the
+						// overtaken packet was written after that stop had been requested: it was pushed
+						// between asyncprocessor.Close and writer = nil.
+						if n := len(wins[r]); !dup && hp.readers[r].tcp && n > 0 && wins[r][n-1].stopB >= 0 &&
+							wins[r][n-1].stopE < 0 && evPosWb[wr.idx] > wins[r][n-1].stopB {
+							cls = "tcp-reorder-push-after-close"
+						}
+						add(cls, "reader %d m=%d f=%d: packet seq=%d (write %d) delivered after write %d (seq %d)", r, d.m, d.f, d.seq, wr.idx, lst[lp], hp.writes[lst[lp]].seq)
+						if !dup {
+							d.w = wr.idx
+							delivered[r][wr.idx] = pos
+						}
 						continue
 					}
 				}
@@ -935,14 +964,16 @@ const (
 )
 
 type shadow struct {
-	ph       int // 0 idle 1 playreq 2 playing 3 stopreq
-	active   bool
-	w        int // 0 none 1 open 2 closed
-	started  bool
-	queue    []int
-	wire     []int
-	pendAct  bool
-	gone     bool
+	ph      int // 0 idle 1 playreq 2 playing 3 stopreq
+	active  bool
+	w       int // 0 none 1 open 2 closed
+	started bool
+	queue   []int // open writer: FIFO
+	ring    []int // closed writer: slots (-1 = empty), positions relative to the read index at Close
+	rp, wp  int
+	wire    []int
+	pendAct bool
+	gone    bool
 }
 
 func (hp *hop) caseLine() string {
@@ -991,15 +1022,32 @@ func (hp *hop) caseLine() string {
 	putPkt := func(seq uint16, ts uint32, mk bool, pt uint8, ssrc uint32, pay []byte) {
 		l.N(uint64(seq)).N(uint64(ts)).B(mk).N(uint64(pt)).N(uint64(ssrc)).N(2).I(len(pay)).N(hash64(pay))
 	}
-	drainOne := func(r int) {
+	drainOne := func(r int) bool {
 		s := sh[r]
 		if !s.started {
+			if s.w != 1 {
+				return false
+			}
 			ctl(cStart, r)
 			s.started = true
 		}
-		ctl(cDrain, r)
-		s.wire = append(s.wire, s.queue[0])
-		s.queue = s.queue[1:]
+		if s.w == 1 {
+			if len(s.queue) == 0 {
+				return false
+			}
+			ctl(cDrain, r)
+			s.wire = append(s.wire, s.queue[0])
+			s.queue = s.queue[1:]
+			return true
+		}
+		if s.w == 2 && len(s.ring) > 0 && s.ring[s.rp] >= 0 {
+			ctl(cDrain, r)
+			s.wire = append(s.wire, s.ring[s.rp])
+			s.ring[s.rp] = -1
+			s.rp = (s.rp + 1) % len(s.ring)
+			return true
+		}
+		return false
 	}
 	// drain the queue up to and including the last item that will be delivered
 	drainWilling := func(r int) {
@@ -1014,14 +1062,27 @@ func (hp *hop) caseLine() string {
 			drainOne(r)
 		}
 	}
+	// asyncprocessor.Close: the slots are cleared, the indices stay len(queue) apart
 	closeW := func(r int) {
 		s := sh[r]
 		drainWilling(r)
 		ctl(cCloseW, r)
+		n := len(s.queue)
 		s.w = 2
 		s.queue = nil
+		s.ring = make([]int, hp.q)
+		for i := range s.ring {
+			s.ring[i] = -1
+		}
+		s.rp, s.wp = 0, n%hp.q
 	}
-	for _, e := range hp.events {
+	nilW := func(r int) {
+		s := sh[r]
+		ctl(cNilW, r)
+		s.w, s.queue, s.ring = 0, nil, nil
+	}
+	stopEmitted := map[int]bool{} // event positions of stop requests already emitted (moved before an overlapping write)
+	for pos, e := range hp.events {
 		switch e.kind {
 		case evPlayB:
 			s := sh[e.r]
@@ -1043,7 +1104,7 @@ func (hp *hop) caseLine() string {
 			s.ph = 2
 		case evStopB, evCloseB:
 			s := sh[e.r]
-			if s.ph == 1 || s.ph == 2 {
+			if !stopEmitted[pos] && (s.ph == 1 || s.ph == 2) {
 				ctl(cStopReq, e.r)
 				s.ph = 3
 			}
@@ -1053,21 +1114,35 @@ func (hp *hop) caseLine() string {
 				closeW(e.r)
 			}
 			if s.w == 2 {
-				ctl(cNilW, e.r)
-				s.w, s.queue = 0, nil
+				nilW(e.r)
 			}
 			ctl(cDeact, e.r)
 			s.active = false
 			ctl(cStopDone, e.r)
 			s.ph = 0
 		case evCloseE:
-			if !hp.noCClose {
+			if !hp.noCClose && sh[e.r].ph == 3 {
 				ctl(cCClose, e.r)
 				sh[e.r].wire = nil
 				sh[e.r].gone = true
 			}
 		case evWb:
 			w := hp.writes[e.w]
+			// A stop requested while this write was in progress is concurrent with it: the push to that
+			// reader may have happened after the request.  Order the request first.
+			for p2 := pos + 1; p2 < len(hp.events); p2++ {
+				e2 := hp.events[p2]
+				if e2.kind == evWe && e2.w == e.w {
+					break
+				}
+				if (e2.kind == evStopB || e2.kind == evCloseB) && !stopEmitted[p2] {
+					if s2 := sh[e2.r]; s2.ph == 1 || s2.ph == 2 {
+						ctl(cStopReq, e2.r)
+						s2.ph = 3
+						stopEmitted[p2] = true
+					}
+				}
+			}
 			for r := 0; r < nR; r++ {
 				s := sh[r]
 				if !hasM(r, w.m) {
@@ -1102,17 +1177,18 @@ func (hp *hop) caseLine() string {
 					}
 				}
 				if s.w == 2 {
-					// closed but not yet joined: the consumer may still run what is pushed now
-					if len(s.queue) >= hp.q {
-						if s.started && will[r][s.queue[0]] {
+					// closed but not yet joined: Push only looks at the slot under the write index; the
+					// consumer may still run what lands under its read index
+					if s.ring[s.wp] >= 0 {
+						if s.rp == s.wp && s.started && will[r][s.ring[s.rp]] {
 							drainOne(r)
 						} else {
-							ctl(cNilW, r)
-							s.w, s.queue = 0, nil
+							nilW(r)
 							continue
 						}
 					}
-					s.queue = append(s.queue, w.idx)
+					s.ring[s.wp] = w.idx
+					s.wp = (s.wp + 1) % len(s.ring)
 					continue
 				}
 				if len(s.queue) >= hp.q {
@@ -1140,15 +1216,24 @@ func (hp *hop) caseLine() string {
 					}
 				}
 				if pos < 0 {
-					qp := -1
-					for j, x := range s.queue {
+					inQ := false
+					for _, x := range s.queue {
 						if x == d.w {
-							qp = j
-							break
+							inQ = true
 						}
 					}
-					for j := 0; j <= qp; j++ {
-						drainOne(r)
+					for _, x := range s.ring {
+						if x == d.w {
+							inQ = true
+						}
+					}
+					for guard := 0; inQ && guard <= 2*hp.q+2; guard++ {
+						if !drainOne(r) {
+							break
+						}
+						if s.wire[len(s.wire)-1] == d.w {
+							break
+						}
 					}
 					for j, x := range s.wire {
 						if x == d.w {
@@ -1382,11 +1467,15 @@ func (sc *scenario) runRelay() *runResult {
 	sc.writeLoop(rng, hopA, nil, len(desc.Medias), func(m int, pkt *rtp.Packet) error {
 		return pub.WritePacketRTP(desc.Medias[m], pkt)
 	}, sc.q)
-	waitDrain(hopA, 1500*time.Millisecond)
+	waitDrain(hopA, 3*time.Second)
 	close(writerDone)
-	waitDrain(hopB, 1500*time.Millisecond)
+	waitDrain(hopB, 3*time.Second)
 	close(stopAll)
 	wg.Wait()
+	hopA.log(event{kind: evCloseB, r: 0})
+	pub.Close()
+	hopA.log(event{kind: evCloseE, r: 0})
+	time.Sleep(50 * time.Millisecond)
 	close(errs)
 	for e := range errs {
 		res.notes = append(res.notes, e)
@@ -1646,6 +1735,7 @@ func main() {
 	ctx.Extra("deliveries", totalD)
 	ctx.Extra("writes", totalW)
 	ctx.Extra("queue_full_reports", totalFull)
+	ctx.Extra("http_tunnel_handshake_races_retried", tunnelHandshakeRaces.Load())
 }
 
 // malformed stream: WritePacketRTP with a payload type the media does not have must behave as the model
